@@ -8,6 +8,8 @@ from .. import paths
 from ..core import FUNC, AnalysisError, inert, call_attr, calls_in, const, dotted, is_const, kwarg, norm, slice_parts, text, walk_local
 
 EXPLANATION = [
+    "C20.identity: no `is` / `is not` comparison in the anchored modules has an operand declared as a number, byte string or string (identity of equal integers holds only inside CPython's small-integer cache, so such a test is right for values up to 256 and wrong afterwards).",
+    'C20.iter-mutation: no loop over a live dict view (`.values()` / `.items()` / `.keys()` of an attribute table) has a body that, through the methods it calls (resolved by name, three levels, local aliases of the table followed), inserts into or removes from the same table; iterating a copy or a sub-table detached with pop() first is accepted.',
     'C20.frame-info: RFCOMM_Frame.from_bytes takes the information field as data[3:-1] (one-octet length indicator) or data[4:-1] (two octets), i.e. everything between header and FCS, in both arms of the EA-bit test.',
     'C20.cind-ranges: the gateway announces an indicator\'s values as (min-max) exactly when the set has max-min+1 elements; the hands-free side expands a-b to range(a, b+1).',
     'C20.credit-guard: one iteration of DLC.process_tx is explored path by path with the branch facts it has accumulated: bytes leave tx_buffer only on paths where `tx_credits > 0` is known, and exactly those paths spend exactly one credit; credit-only frames spend none.',
